@@ -19,8 +19,13 @@ def run(tier, seed):
     wd = vlib.workdir(PID)
     exe = vlib.build_harness("dbg")
     pairlog = 7 if tier == "quick" else 8
-    r = vlib.tlc_check("MC_Air", "MC_Air", workers=4, env={"AIR_MINLOG": 3, "AIR_MAXLOG": 8, "AIR_PAIRLOG": pairlog},
+    r = vlib.tlc_check("MC_Air", "MC_Air", workers=4, env={"AIR_MINLOG": 3, "AIR_MAXLOG": 8, "AIR_PAIRLOG": pairlog, "AIR_DEDUPFIRST": 0},
                        timeout=3000, xmx="8g")
+    # non-vacuity of PrepareInv: the variant of prepare_assertions that de-duplicates by the ordering key before comparing is refuted
+    rv = vlib.tlc_check("MC_Air", "MC_Air", workers=2, env={"AIR_MINLOG": 3, "AIR_MAXLOG": 3, "AIR_PAIRLOG": 3, "AIR_DEDUPFIRST": 1},
+                        timeout=600, xmx="2g", tag="MC_Air_dedupfirst")
+    if rv.ok or "PrepareInv" not in str(rv.violation):
+        raise vlib.ToolError("Air.tla: the de-duplicate-first variant of prepare_assertions is not refuted by PrepareInv (%s)" % rv.violation)
     if not r.ok:
         v.violation("model/" + str(r.violation), "Air.tla: the transcription of divisors/overlap/refusal disagrees with the "
                     "declarative step sets: %s" % r.violation, {"tlc": r.out[-5000:]})
